@@ -39,7 +39,24 @@ def gen_scenario(rng: random.Random, focus: str = "any") -> dict:
             client.insert(rng.randrange(len(client) + 1), ["POST", "/api/shutdown"])
     client.append(["POST!", "/api/shutdown"])
     sc["client"] = client
-    if rng.random() < 0.35:
+    if focus == "C01" or (focus in ("any", "C02") and rng.random() < 0.25):
+        # handshake-heavy scripts: back-to-back pause / resume / save, failed attempts
+        sc["queue_size"] = 3
+        sc["max_attempts"] = rng.choice([1, 2, 3])
+        seqs = [["pause", "resume", "pause"], ["save-state", "pause"], ["pause", "save-state", "resume"],
+                ["save-state", "save-state"], ["pause", "resume", "save-state", "pause", "resume"],
+                ["resume", "pause", "resume", "pause"]]
+        client = []
+        for _ in range(rng.randint(1, 3)):
+            client += [["POST", "/api/" + c] for c in rng.choice(seqs)]
+            if rng.random() < 0.3:
+                client.append(["GET", "/api/status"])
+        client.append(["POST!", "/api/shutdown"])
+        sc["client"] = client
+    if rng.random() < 0.12:
+        # a save condition that stays true: every tick saves, also the tick that sees SHUTDOWN
+        sc["save_condition"] = [False] * rng.randint(0, 6) + [True] * 60
+    elif rng.random() < 0.35:
         k = rng.randint(1, 12)
         sc["save_condition"] = [False] * k + [True] + ([False] * rng.randint(0, 5) + [True] if rng.random() < 0.3 else [])
     if focus in ("C03", "C09") or (focus == "any" and rng.random() < 0.15):
